@@ -1005,8 +1005,9 @@ def _close(a, b):
 
 
 @subcheck(PROP, "woehler_downstream", strategy=_woehler_cases, quick=700, thorough=25000,
-          doc="DataFrame of Woehler curves x Series of loads (cycles) with any matched layout: WoehlerCurve.cycles / .load of the batch == "
-              "the scalar call for the curve and load found under the row's restricted key (RTOL 1e-12)")
+          doc="DataFrame of Woehler curves (optionally with per-curve k_2, TN, TS and MIXED native failure_probability) x Series of loads "
+              "(cycles) of dtype float64/float32/float16/int64 with any matched layout: WoehlerCurve.cycles / .load of the batch == the scalar "
+              "call for the curve and the float64 value of the load found under the row's restricted key (RTOL 1e-12)")
 def woehler_downstream(case, ctx):
     import pylife.materiallaws.woehlercurve  # noqa: F401  (registers the accessor)
     op_o, op_p = case["obj"], case["prm"]
@@ -1073,7 +1074,8 @@ def woehler_downstream(case, ctx):
                     break
             if bad is None:
                 return
-            first = first or bad
+            if first is None or ("batch" in bad and "batch" not in first):
+                first = bad       # report a value mismatch rather than the key mismatch of an implausible level assignment
     raise Violation(first, bucket="woehler:value")
 
 
